@@ -146,9 +146,11 @@ section handover
 variable {K : Type} [Field K] [DecidableEq K]
 
 /-- **handover**: `convert_IVP` / `initialize` write into the post-switch netlist the capacitor voltages and inductor
-    currents (for couplings: the partner's current) of the pre-switch solution `X` — for a steady pre-switch circuit the
-    `Laws .dc` solution, whose constant continuation is a whole-axis solution of the pre-switch circuit
-    (`dc_is_steady_state`).  For signals whose pre-history ends in `X` this initial-value problem has EXACTLY the
+    currents (for couplings: the partner's current) of the pre-switch solution `X` at the switching instant — for a
+    steady (dc) pre-switch circuit `X` is its C01 `Laws .dc` solution, which is what the harness computes with the Lean
+    C01 model (`mna.solve dc`, checked by `residual`) and compares with what Lcapy wrote (oracle `state-handover`); for a
+    pre-switch response that is still moving `X` is `evalAt` of that (law-checked) response at the switching instant.
+    For signals whose pre-history ends in `X` this initial-value problem has EXACTLY the
     solutions of the post-switch netlist with no initial condition written, i.e. of the circuit continued from its own
     state at 0⁻: the initial conditions handed over are the values at t = 0⁻ of the pre-switch solution, nothing else.
     (A hand-over of any other value, e.g. the solution at a later instant, breaks this: seeded change C02-3.) -/
